@@ -6,6 +6,10 @@ HERE = os.path.dirname(os.path.abspath(__file__))
 TECH = "deterministic simulation with fault injection: seeded runs of the real library on a simulated block device (SimDisk); "
 
 CHECKS = {
+ "C10": dict(level="exploration", design="§5 C10",
+   text="Seeded histories of Read(len)/Seek(off,whence)/Close/re-open on handles of files of known content whose sizes sit on 0/1/unit-1/unit/unit+1/multi-unit boundaries, on images of every filesystem kind (fat12/16/32, ext4 written by the library and by mke2fs, iso9660 plain/Rock Ridge/Joliet, squashfs with four compressors, without compression and without fragments) built on the simulated device at start 0 or a non-zero offset; every call is compared with a cursor model (bytes.Reader semantics with io.Reader laxity): bytes, counts, io.EOF exactly at the end, Seek results, negative targets refused with the cursor unchanged, Read after Close fails.",
+   note="Seeded sampling of call histories. Image construction uses the library's own writers (and mke2fs for ext4); an image that cannot be built or re-opened is skipped here (it is another property's clause).",
+   technique=TECH+"seeded handle-call histories vs executable cursor model on images of every filesystem kind"),
  "C01": dict(level="exploration", design="§5 C01",
    text="Seeded operation histories (mkdir, create, write at start/inside/EOF/EOF+gap, append, truncating open, rename incl. rename-over, remove, fill-until-refused/empty/refill cycles, held handles, reopen) on FAT12/16/32 volumes of seeded size and start offset inside a larger noise-filled simulated device; after every operation listings, sizes and contents are compared with an in-memory tree, live, through the writing handle and after re-opening the image from its bytes; refused calls must leave every other path unchanged; a refill must reach the first fill's capacity.",
    note="Seeded sampling of histories (not exhaustive). Trusted: reference tree, SimDisk. Operations whose preconditions fail in the model are skipped; names restricted to the legal-name domain; device EIO not injected; 'full' is produced by the workload.",
